@@ -215,6 +215,10 @@ func (p *Packet) SetAdaptationField(af *AdaptationField) error {
 	if !p.HasAdaptationField() {
 		return gots.ErrNoAdaptationField
 	}
+	if af == nil {
+		// what AdaptationField() returns for a packet without one
+		return gots.ErrNoAdaptationField
+	}
 	oldAF, _ := p.AdaptationField()
 	if af.Length() == 0 {
 		// a source field of length 0 has no flags byte (its byte 5 already is
